@@ -82,6 +82,16 @@ ITEMS = [
     ('num_bounded_min', 'Some(<T as num_traits::Bounded>::min_value())'),
     ('num_from_str_radix', '<T as num_traits::Num>::from_str_radix("0", 10).ok()'),
     ('num_from_u64', '<T as num_traits::FromPrimitive>::from_u64(0)'),
+    # decoders (all route through the slice/limb constructors)
+    ('serde_json_str', 'serde_json::from_str::<T>("\\"0x0\\"").ok()'),
+    ('serde_json_num', 'serde_json::from_str::<T>("0").ok()'),
+    ('bincode', 'bincode::deserialize::<T>(&bincode::serialize(&Uint::<65, 2>::ZERO).unwrap()).ok()'),
+    ('alloy_rlp_decode', '<T as alloy_rlp::Decodable>::decode(&mut &[0x80u8][..]).ok()'),
+    ('rlp_decode', 'rlp::decode::<T>(&[0x80u8]).ok()'),
+    ('scale_decode', '<T as parity_scale_codec::Decode>::decode(&mut &[0u8][..]).ok()'),
+    ('ssz_decode', '<T as ssz::Decode>::from_ssz_bytes(&[0u8; BY]).ok()'),
+    ('borsh_decode', '<T as borsh::BorshDeserialize>::try_from_slice(&[0u8; BY]).ok()'),
+    ('num_bigint_try_from', 'T::try_from(num_bigint::BigUint::from(0u8)).ok()'),
 ]
 QUICK_FIXED = 12   # the first QUICK_FIXED items always run in the quick tier
 
@@ -110,7 +120,16 @@ autobins = false
 [workspace]
 
 [dependencies]
-ruint = { path = "%(repo)s", features = ["std", "rand", "rand-09", "arbitrary", "proptest", "quickcheck", "bytemuck", "num-traits"] }
+ruint = { path = "%(repo)s", features = ["std", "rand", "rand-09", "arbitrary", "proptest", "quickcheck", "bytemuck", "num-traits",
+    "serde", "alloy-rlp", "rlp", "parity-scale-codec", "ssz", "borsh", "num-bigint"] }
+serde_json = "1"
+bincode = "1.3"
+alloy-rlp = "0.3"
+rlp = "0.5"
+parity-scale-codec = "3"
+ssz = { package = "ethereum_ssz", version = "0.5.3" }
+borsh = "1.5"
+num-bigint = "0.4"
 rand_08 = { package = "rand", version = "0.8" }
 rand_09 = { package = "rand", version = "0.9" }
 arbitrary = "1"
@@ -163,25 +182,29 @@ def run_probes(repo, probes, tag='q', jobs=16):
     if p.returncode != 0:
         shutil.rmtree(d, ignore_errors=True)
         return None, 'probe crate: ruint does not build for the probes:\n' + p.stderr[-2000:]
-    p = subprocess.run(['cargo', 'build', '--offline', '--bins', '--keep-going', '-j', str(jobs)], cwd=d, env=env,
-                       capture_output=True, text=True, timeout=7200)
+    p = subprocess.run(['cargo', 'build', '--offline', '--bins', '--keep-going', '-j', str(jobs), '--message-format=json'],
+                       cwd=d, env=env, capture_output=True, text=True, timeout=7200)
     err = p.stderr
     res = {}
-    # per-bin diagnostics: the block that ends with `error: could not compile `g4probe` (bin "NAME")`
+    # per-bin diagnostics from cargo's JSON messages (first error of each bin target)
+    import json
     why = {}
-    seg = []
-    for line in err.split('\n'):
-        m = re.match(r'error: could not compile `g4probe` \(bin "([^"]+)"\)', line)
-        if m:
-            text = '\n'.join(seg)
-            a = re.search(r'evaluation panicked: ([^\n]*)', text)
-            b = re.search(r'evaluation of `([^`]*)` failed', text)
-            c = re.search(r'^error(\[E\d+\])?: ([^\n]*)', text, re.M)
-            why[m.group(1)] = ((a.group(1) if a else (c.group(2) if c else 'compile error'))
-                               + (' [evaluating %s]' % b.group(1) if b else ''))
-            seg = []
-        else:
-            seg.append(line)
+    for line in p.stdout.split('\n'):
+        if not line.startswith('{'):
+            continue
+        try:
+            o = json.loads(line)
+        except ValueError:
+            continue
+        if o.get('reason') != 'compiler-message' or o.get('message', {}).get('level') != 'error':
+            continue
+        bn = o.get('target', {}).get('name')
+        if bn in why:
+            continue
+        msg = o['message'].get('message', '')
+        rendered = o['message'].get('rendered') or ''
+        b = re.search(r'evaluation of `([^`]*)` failed', rendered)
+        why[bn] = re.sub(r'^evaluation panicked: ', '', msg) + (' [evaluating %s]' % b.group(1) if b else '')
     for k, (bn, src) in srcs.items():
         exe = os.path.join(tgt, 'debug', bn)
         if not os.path.exists(exe):
